@@ -132,15 +132,15 @@ func c04HostLiteralNormalised(c *Ctx, pkg string) {
 	bad := token.NoPos
 	for _, in := range instrsWhere(fn, isReturn) {
 		r := in.(*ssa.Return)
-		if len(r.Results) != 3 || !isNilConst(r.Results[2]) {
+		if len(r.Results) != 3 || !isNilConst(unspill(r, 2)) {
 			continue
 		}
 		// success return: the host is either the library's own result or derived from the argument
-		if ex, ok := r.Results[0].(*ssa.Extract); ok && ex.Tuple == ssa.Value(split[0].Instr.(*ssa.Call)) {
+		if ex, ok := unspill(r, 0).(*ssa.Extract); ok && ex.Tuple == ssa.Value(split[0].Instr.(*ssa.Call)) {
 			continue
 		}
 		n++
-		if rawOnly(r.Results[0], map[ssa.Value]bool{}) {
+		if rawOnly(unspill(r, 0), map[ssa.Value]bool{}) {
 			bad = nearestPos(in)
 		}
 	}
@@ -167,7 +167,7 @@ func c04NoNilMatcherStored(c *Ctx, pkg string) {
 			callee := call.Common().StaticCallee()
 			canNil := false
 			for _, in := range instrsWhere(callee, isReturn) {
-				if r := in.(*ssa.Return); len(r.Results) > 0 && isNilConst(r.Results[0]) {
+				if r := in.(*ssa.Return); len(r.Results) > 0 && isNilConst(unspill(r, 0)) {
 					canNil = true
 				}
 			}
